@@ -76,6 +76,18 @@ Fixpoint try_ops (cands : list op) (out : list ast) (stk : list sitem) : res (li
                if ok then inl (out', SOp o (length out') :: stk') else try_ops rest out' stk'
            end
   end.
+(* ConstraintOperatorResolver.resolve for a token that is not in the table: character by character; after the first character
+   only prefix operators (signs) are candidates *)
+Fixpoint resolve_chars (first : bool) (s : str) (st : list ast * list sitem) : res (list ast * list sitem) :=
+  match s with
+  | [] => inl st
+  | ch :: r =>
+      let cs := if first then candidates [ch] else filter (fun o => match ofix o with Prefix => true | Infix => false end) (candidates [ch]) in
+      match cs with
+      | [] => inr 0%nat
+      | _ => match try_ops cs (fst st) (snd st) with inl st' => resolve_chars false r st' | inr e => inr e end
+      end
+  end.
 Definition cLP := 40. Definition cRP := 41. Definition cLS := 91. Definition cRS := 93.
 Definition opener_of (c : str) : option str := if leqb c [cRP] then Some [cLP] else if leqb c [cRS] then Some [cLS] else None.
 Fixpoint close_ctx (opener : str) (stk : list sitem) (out : list ast) : res (list ast * list sitem) :=
@@ -89,7 +101,9 @@ Definition mstep (t : tk) (st : list ast * list sitem) : res (list ast * list si
   match kd t with
   | KContext => if leqb (tx t) [cLP] || leqb (tx t) [cLS] then inl (out, SCtx (tx t) (length out) :: stk)
                 else match opener_of (tx t) with Some o => close_ctx o stk out | None => inr 0%nat end
-  | KOperator => match candidates (tx t) with [] => inr 0%nat | cs => try_ops cs out stk end
+  | KOperator => match candidates (tx t) with
+                 | [] => resolve_chars true (tx t) (out, stk)      (* adjacent operators lexed as one token: "=-" in "a = -b" *)
+                 | cs => try_ops cs out stk end
   | _ => inl (out ++ [ALeaf t], stk)
   end.
 Fixpoint mrun (ts : list tk) (st : list ast * list sitem) : res (list ast * list sitem) :=
